@@ -511,11 +511,22 @@ def inline_tail_delegate(fn, F, depth=0):
     if call.get("k") != "call" or not call.get("fn") or call.get("ck") == "op":
         return fn
     pre = ss[:-1]
-    if any(s.get("k") != "decl" for s in pre):
+
+    def empty_guard(s_):
+        """`if (empty()) return ..;` - the early exit for the empty node in front of the delegation"""
+        if s_.get("k") != "if" or s_.get("else") is not None:
+            return False
+        c_ = s_["c"]
+        while isinstance(c_, dict) and c_.get("k") in ("cast", "paren"):
+            c_ = c_["e"]
+        t_ = s_["then"]
+        t_ = t_["s"][0] if t_.get("k") == "block" and len(t_.get("s", [])) == 1 else t_
+        return isinstance(c_, dict) and c_.get("k") == "call" and c_.get("name") == "empty" and t_.get("k") == "return"
+    if any(s.get("k") != "decl" and not empty_guard(s) for s in pre):
         return fn
     lambdas = {}
     for d in pre:
-        for v in d.get("vars", []):
+        for v in d.get("vars", []) if d.get("k") == "decl" else []:
             init = v.get("init")
             while isinstance(init, dict) and init.get("k") == "cast":
                 init = init["e"]
